@@ -344,7 +344,10 @@ Definition run_sx (c : sx) : sx :=
 (** the constructs the regular-expression front end is known not to support (known findings):
     class 2: a closing brace inside a string literal (rule_split_regex ends a rule at the first '}');
     class 3: blank, "then", blank inside a string literal of the when clause (when_then_regex splits there);
-    class 4: a comment containing a closing brace or a rule header (the file is split before comments are removed) *)
+    class 4: a comment containing a closing brace or a rule header (the file is split before comments are removed);
+    class 5: a method-call action `$Object.method(args)` comes back as the custom action `method(args)` - the object is
+             lost (method_call_regex starts with `\$`, which the regex engine never matches); recognised by the observation
+             being EXACTLY the expectation with every method call replaced by that custom action *)
 Fixpoint lit_strs (l : lit) : list str :=
   match l with
   | LStr s => [s]
@@ -382,13 +385,22 @@ Definition file_class (grs : list grule) (feats : list sx) : Z :=
 
 (** verdict for a rule file: 1 = the parsed rules are exactly those written, in order; otherwise the number
     of the known-finding class the file belongs to, or 0 (violation) when it belongs to none *)
+Definition demethod (a : action) : action := match a with KMethod _ m args => KCustom m args | _ => a end.
+Definition demethod_rule (r : grule) : grule :=
+  {| g_name := g_name r; g_attrs := g_attrs r; g_cond := g_cond r; g_acts := map demethod (g_acts r) |}.
+Definition has_method (r : grule) : bool := existsb (fun a => match a with KMethod _ _ _ => true | _ => false end) (g_acts r).
+
 Definition ok_sx (c o : sx) : Z :=
   match c with
   | L [A 0; L rs; L feats] =>
       match mapO dec_grule rs with
       | Some grs =>
           match mapO exp_rule grs with
-          | Some es => if sx_eqb o (L [A 0; L es]) then 1 else file_class grs feats
+          | Some es => if sx_eqb o (L [A 0; L es]) then 1
+                       else if existsb has_method grs
+                               && match mapO exp_rule (map demethod_rule grs) with Some es' => sx_eqb o (L [A 0; L es']) | None => false end
+                            then 5
+                            else file_class grs feats
           | None => 0 end
       | None => 0 end
   | L [A 1; _; g] => match dec_gcond g with
